@@ -6,6 +6,7 @@ Driver ops for the standardization family (C01, C02, C05, C09, C10, C14, C16): t
 import Driver.Common
 import ZepidVerif.Model.Std
 import ZepidVerif.Model.Generalize
+import ZepidVerif.Gen.Fit
 namespace ZVD
 open ZV ZV.Std
 
@@ -130,6 +131,18 @@ def opAipswG (a : Args) : Except String String := do
   let ω := aipswOmega g stab (look ns) (look ds) (look tw)
   pure s!"ok r1={sh (aipsw g l Q ω true)} r0={sh (aipsw g l Q ω false)}"
 
+/-- the definition *generated* from the text of `AIPSW.fit`, run on the implementation's own arrays -/
+def opAipswFitG (a : Args) : Except String String := do
+  let l : List (Row F) ← parseRows a
+  let g ← need a "gen" parseBool
+  let hasI ← need a "hasiptw" parseBool
+  let ipsw : Array F ← vals a "ipsw"
+  let iptw : Array F ← vals a "iptw"
+  let q1 : Array F ← vals a "q1"
+  let q0 : Array F ← vals a "q0"
+  let (rd, rr) := Gen.aipsw_fit g false hasI l (look ipsw) (look iptw) (look q1) (look q0)
+  pure s!"ok rd={sh rd} rr={sh rr}"
+
 /-- standardized means over the generalize / transport target -/
 def opStdGenG (a : Args) : Except String String := do
   let l : List (Row F) ← parseRows a
@@ -153,6 +166,7 @@ def opsStd : OpTable := [
   ("ipsw", atCarrier (opIpswG (F := Rat)) (opIpswG (F := Float))),
   ("gtrans", atCarrier (opGtransG (F := Rat)) (opGtransG (F := Float))),
   ("aipsw", atCarrier (opAipswG (F := Rat)) (opAipswG (F := Float))),
+  ("aipswfit", atCarrier (opAipswFitG (F := Rat)) (opAipswFitG (F := Float))),
   ("stdgen", atCarrier (opStdGenG (F := Rat)) (opStdGenG (F := Float)))]
 
 end ZVD
